@@ -4,7 +4,12 @@
    Model: RuleDB/Model.v.  ONE database (RuleDBBase.add / _clean_labels / contains /
    __iter__) generic in the implementation of its two stores; DictStore = RuleDB's
    dicts, RecStore = RecomputingDict (a set of flattened keys; __getitem__ replays
-   EmptyStrategy and the pack on the classes of the key).  The pack and the classes
+   EmptyStrategy and the pack on the classes of the key and THEN - since fix 59cdf67 - on
+   every other labelled class: rec_getitem_x T (other_labels d k) = rec_getitem_all, THE
+   CODE AS IT IS and the function the harness runs; rec_getitem = rec_getitem_x T [] is the
+   code BEFORE that fix).  The theorems about the code as it is carry the suffix _x
+   (section 3x below); the theorems 3a-3c, 3e and the search composition without suffix
+   are kept and are about the code before 59cdf67.  The pack and the classes
    are a strategy table T (Searcher/Model.v), the class database is the C15 model.
 
    A history h is ANY list of: add(start, ends, rule) - with any labels and any rule,
@@ -24,9 +29,10 @@
 From Coq Require Import ZArith List Bool Lia.
 From CSS Require Import Base.PyList ClassDB.Model ClassDB.Proofs Searcher.Model Searcher.Inv Searcher.Contracts
   Searcher.ProofsCore Searcher.Proofs
-  RuleDB.Model RuleDB.StoreProofs RuleDB.CdbFacts RuleDB.GetProofs RuleDB.AddProofs RuleDB.Bridge
+  RuleDB.Model RuleDB.StoreProofs RuleDB.CdbFacts RuleDB.GetProofs RuleDB.GetAll RuleDB.AddProofs RuleDB.Bridge
   RuleDB.AddHist RuleDB.SearchHist.
 From CSS Require Searcher.Deciders.
+From CSS Require Equiv.Model Equiv.Neutral Equiv.Inv Props.C06 RuleDB.Run RuleDB.VerifiedOrder Tree.Basics.
 Import ListNotations.
 Open Scope Z_scope.
 
@@ -88,6 +94,95 @@ Proof.
   intros k. rewrite !in_app_iff, H1, H2, (sim_keys _ _ Hr), (sim_keys _ _ He). tauto.
 Qed.
 
+(* 1c. THE FREE `rep` OF THEOREMS 1 / 1b INSTANTIATED WITH THE REAL EQUIVALENCE CLASSES (C06).  Both databases own an
+   EquivalenceDB of the same base-class code; the calls `add` makes on it are the same list in both (theorem 1,
+   b_eq), so whatever the rest of the program adds to them in the same way (mk_ops: any function of the calls of
+   add - e.g.  fun calls => eq_ops calls ++ [Connect]  = "connect_cycles() after them", what
+   rules_up_to_equivalence does) the two equivalence databases are in the SAME state s of the C06 model
+   (Equiv/Model.v; total: C06_exec_total_ex), and equivdb[l] is C06's representative function  repf s
+   (C06_representative_function: what every lookup returns, equal exactly for labels of the same class).  Hence
+   "same has_specification / same labels marked" is about the real equivalence classes, for every order and
+   multiplicity in which the memory-saving SET is iterated; and is_verified(l) is the same function of that state in
+   both (true iff some label of l's class was passed to set_verified: C06_verified). *)
+Theorem C14_same_has_specification_real_classes :
+  forall (order : list Z -> list Z),
+  (forall l x, In x (order l) <-> In x l) -> (forall l, (length (order l) <= length l)%nat) ->
+  forall (T : table) (d0 : cdbT) (h : list hop) (mk_ops : list eqcall -> list Equiv.Model.op),
+  let A := dict_run T (dict_init d0) h in
+  let B := rec_run T (rec_init d0) h in
+  exists s rs,
+    Equiv.Model.exec order Equiv.Model.init (mk_ops (b_eq dstore A)) = Some (s, rs) /\
+    Equiv.Model.exec order Equiv.Model.init (mk_ops (b_eq rstore_t B)) = Some (s, rs) /\
+    (* repf s is what equivdb[x] returns, and it identifies exactly the labels of one class *)
+    (forall x s1 r, Equiv.Model.find s x = Some (s1, r) -> r = Equiv.Neutral.repf s x) /\
+    (forall a b, Equiv.Neutral.repf s a = Equiv.Neutral.repf s b <-> Equiv.UF.same s a b) /\
+    (* same has_specification *)
+    (forall root iterative ksr kse,
+       (forall k, In k ksr <-> In k (r_keys (b_r rstore_t B))) ->
+       (forall k, In k kse <-> In k (r_keys (b_e rstore_t B))) ->
+       db_has_spec (Equiv.Neutral.repf s) ksr kse root iterative =
+       db_has_spec (Equiv.Neutral.repf s) (d_keys (b_r dstore A)) (d_keys (b_e dstore A)) root iterative) /\
+    (* has_specification marks the same labels *)
+    (forall root iterative ksr kse,
+       (forall k, In k ksr <-> In k (r_keys (b_r rstore_t B))) ->
+       (forall k, In k kse <-> In k (r_keys (b_e rstore_t B))) ->
+       exists pa pb,
+         Tree.Model.pruned_dict (Equiv.Neutral.repf s) (d_keys (b_r dstore A) ++ d_keys (b_e dstore A)) root iterative = Some pa /\
+         Tree.Model.pruned_dict (Equiv.Neutral.repf s) (ksr ++ kse) root iterative = Some pb /\
+         forall l, Tree.Model.has_key pa l = Tree.Model.has_key pb l) /\
+    (* is_verified: one function of the common state *)
+    (forall l s' v, Equiv.Model.is_verified s l = Some (s', v) ->
+       (v = true <-> exists b, Equiv.Hist.marked (mk_ops (b_eq dstore A)) b /\ Equiv.UF.same s l b)).
+Proof.
+  intros order oIn olen T d0 h mk_ops A B.
+  destruct (C14_same_keys_same_answers T d0 h) as (_ & _ & _ & Heq & _ & _ & _ & _ & _ & Hhs).
+  fold A B in Heq, Hhs.
+  destruct (Props.C06.C06_exec_total_ex order olen (mk_ops (b_eq dstore A))) as (s & rs & E).
+  exists s, rs. split; [exact E|]. split; [rewrite Heq; exact E|].
+  destruct (Props.C06.C06_representative_function order olen _ s rs E) as (_ & R2 & R3 & _).
+  split; [intros x s1 r F; exact (proj1 (R2 x s1 r F))|]. split; [exact R3|]. split; [|split].
+  - intros root it ksr kse H1 H2. apply Hhs; auto.
+  - intros root it ksr kse H1 H2.
+    exact (C14_has_specification_marks_same_labels T d0 h (Equiv.Neutral.repf s) root it ksr kse H1 H2).
+  - intros l s' v Q. exact (Props.C06.C06_verified order oIn _ s rs l s' v E Q).
+Qed.
+
+(* 1d. ... and has_specification() LEAVES the two equivalence databases in states that answer is_verified alike for
+   every label, although `for k in pruned_dict: equivdb.set_verified(k)` hands them the keys in different orders
+   (a dict built from dicts vs from a set): s = the common state when the pruning starts (after mk_ops of add's
+   calls, e.g. eq_ops calls ++ [Connect]); pa / pb = the two pruned dictionaries (same key set, theorem 1b); marking
+   keys pa resp. keys pb - any order, any multiplicity - gives the same is_verified answers (RuleDB/VerifiedOrder.v
+   marking_order_irrelevant: C06_set_verified_keeps_partition + C06_verified). *)
+Theorem C14_has_specification_leaves_same_is_verified :
+  forall (order : list Z -> list Z),
+  (forall l x, In x (order l) <-> In x l) -> (forall l, (length (order l) <= length l)%nat) ->
+  forall (T : table) (d0 : cdbT) (h : list hop) (mk_ops : list eqcall -> list Equiv.Model.op) root iterative ksr kse,
+  let A := dict_run T (dict_init d0) h in
+  let B := rec_run T (rec_init d0) h in
+  (forall k, In k ksr <-> In k (r_keys (b_r rstore_t B))) ->
+  (forall k, In k kse <-> In k (r_keys (b_e rstore_t B))) ->
+  exists s rs pa pb,
+    Equiv.Model.exec order Equiv.Model.init (mk_ops (b_eq dstore A)) = Some (s, rs) /\
+    Tree.Model.pruned_dict (Equiv.Neutral.repf s) (d_keys (b_r dstore A) ++ d_keys (b_e dstore A)) root iterative = Some pa /\
+    Tree.Model.pruned_dict (Equiv.Neutral.repf s) (ksr ++ kse) root iterative = Some pb /\
+    forall sA rsA sB rsB,
+      Equiv.Model.exec order Equiv.Model.init
+        (mk_ops (b_eq dstore A) ++ map Equiv.Model.SetVerified (Tree.Model.keys pa)) = Some (sA, rsA) ->
+      Equiv.Model.exec order Equiv.Model.init
+        (mk_ops (b_eq rstore_t B) ++ map Equiv.Model.SetVerified (Tree.Model.keys pb)) = Some (sB, rsB) ->
+      forall l sA' vA sB' vB,
+        Equiv.Model.is_verified sA l = Some (sA', vA) -> Equiv.Model.is_verified sB l = Some (sB', vB) -> vA = vB.
+Proof.
+  intros order oIn olen T d0 h mk_ops root it ksr kse A B H1 H2.
+  destruct (C14_same_has_specification_real_classes order oIn olen T d0 h mk_ops) as (s & rs & E1 & _ & _ & _ & _ & Hm & _).
+  fold A B in E1, Hm. destruct (Hm root it ksr kse H1 H2) as (pa & pb & Pa & Pb & Hk).
+  exists s, rs, pa, pb. split; [exact E1|]. split; [exact Pa|]. split; [exact Pb|].
+  intros sA rsA sB rsB EA EB l sA' vA sB' vB QA QB.
+  destruct (C14_same_keys_same_answers T d0 h) as (_ & _ & _ & Heq & _). fold A B in Heq. rewrite Heq in EB.
+  apply (RuleDB.VerifiedOrder.marking_order_irrelevant order oIn _ _ _ sA rsA sB rsB l sA' vA sB' vB) with (2 := EA) (3 := EB); auto.
+  intros k. rewrite <- !Tree.Basics.has_key_keys, Hk. tauto.
+Qed.
+
 (* 2. contains(start, ends) is true exactly when (start, sorted(ends)) is a stored key -
    in both databases, for every pair, after every history *)
 Theorem C14_contains : forall (T : table) (d0 : cdbT) (h : list hop) start ends,
@@ -105,7 +200,9 @@ Proof.
   rewrite (sim_keys _ _ Hr), (sim_keys _ _ He). apply dict_contains_spec.
 Qed.
 
-(* 3a. whatever RecomputingDict.__getitem__ hands back reproduces the key: re-applied to the
+(* [3a-3c, side effects, 3e: THE CODE BEFORE FIX 59cdf67 (rec_getitem = only the classes of the key are replayed).
+   The same statements for the code as it is: section 3x, C14_recompute_reproduces_x etc.]
+   3a. whatever RecomputingDict.__getitem__ hands back reproduces the key: re-applied to the
    class labelled (fst k) it gives a rule filed under k again (in the state d' the lookup left);
    it comes from a strategy of the pack (or the empty strategy) applied to a class of the key, the
    equivalence store only hands back two-way rules, and the rule's parent is the class labelled fst k.
@@ -167,7 +264,7 @@ Theorem C14_dict_add_reproduces : forall (T : table) a start ends r cs,
   reproduces T (b_cdb dstore a1) (r_sid r) k = true.
 Proof. intros; eapply dict_add_spec; eauto. Qed.
 
-(* 3e. RuleDBForgetStrategy: the same add stores the key, and a lookup right after it - or in ANY later
+(* 3e [CODE BEFORE 59cdf67; as it is: C14_stored_rule_is_handed_back_x]. RuleDBForgetStrategy: the same add stores the key, and a lookup right after it - or in ANY later
    state that kept labels and is_empty answers, from any store still holding the key - hands back a
    strategy that reproduces it, provided a strategy q of the pack (or the empty strategy) produces the
    rule on the rule's OWN parent class.  (Not covered: a rule a factory produced for another class, see
@@ -184,11 +281,9 @@ Theorem C14_stored_rule_is_handed_back : forall (T : table) b start ends r cs pa
     exists d3 sid p, rec_getitem T pack oe s2 d2 k = (d3, GOk sid p) /\ reproduces T d3 sid k = true.
 Proof. intros; eapply rec_add_spec; eauto. Qed.
 
-(* 3f. the repair proposed for the open finding (findings/forget_foreign_parent.patch.diff: after the labels
-   of the key, replay the pack on every other label; model: rec_getitem_x extra): 3a holds for every `extra`,
-   and a stored rule is handed back whenever a strategy of the pack produces it on ANY replayed class c0 -
-   with extra = all other labels: on any class the searcher has labelled, which is what C04 guarantees for
-   every rule a search records.  rec_getitem = rec_getitem_x [] is the code as it is. *)
+(* 3f. for EVERY list `extra` of labels replayed after the labels of the key (fix 59cdf67, in /repo: extra = all
+   other labels, see 3x; extra = [] is the code before the fix): 3a holds, and a stored rule is handed back
+   whenever a strategy of the pack produces it on ANY replayed class c0. *)
 Theorem C14_repair_reproduces : forall (T : table) extra pack only_equiv s d k d' sid p,
   WFd d -> labs_known d (key_labels k extra) ->
   rec_getitem_x T extra pack only_equiv s d k = (d', GOk sid p) ->
@@ -244,7 +339,8 @@ Proof.
 Qed.
 End Search.
 
-(* COMPOSITION C04 -> C14 (RuleDB/SearchHist.v, C04_search_gives_add_hist): the hypotheses add_pre / pres of
+(* [CODE BEFORE 59cdf67 (rec_getitem, own-parent rules only); the code as it is: C14_search_stored_rules_handed_back_x]
+   COMPOSITION C04 -> C14 (RuleDB/SearchHist.v, C04_search_gives_add_hist): the hypotheses add_pre / pres of
    C14_stored_rule_is_handed_back hold for the histories SEARCHES produce.  For every run of the searcher model on a
    pruning database (any table honouring the contracts, start class, packets of pack strategies, answers, fuel -
    also a run that died), for every ruledb.add(start, ends, rule (sid, parent)) event in its trace - also one made
@@ -306,6 +402,186 @@ Proof.
   exact (C14_search_stored_rules_handed_back T pack fpack A B C D F dl ev ans start ps E).
 Qed.
 
+(* =====================================================================================================
+   3x. THE CODE AS IT IS (RecomputingDict.__getitem__ since fix 59cdf67): after the labels of the key, the pack is
+   replayed on EVERY other label of the class database:  rec_getitem_x T (other_labels d k)  (= rec_getitem_all;
+   this is what run_c14 evaluates with fallback = 1, the value the harness sends).  The replayed labels are ALL
+   labels (C14_all_labels_replayed), so the candidates are the rules any strategy of the pack - or the empty
+   strategy - produces on ANY labelled class:  is_cand_all T d pack r. *)
+Theorem C14_all_labels_replayed : forall (d : cdbT) k l, labels_known d k ->
+  (In l (key_labels k (other_labels d k)) <-> 0 <= l < nlabels d).
+Proof. intros; apply key_labels_all; auto. Qed.
+
+(* 3a_x. whatever it hands back reproduces the key (in the state d' the lookup left), comes from a strategy of the
+   pack (or the empty strategy) applied to SOME labelled class, is two-way for the equivalence store, and the rule's
+   parent is the class labelled fst k.  Any well-formed class database, store, key with known labels. *)
+Theorem C14_recompute_reproduces_x : forall (T : table) pack only_equiv s d k d' sid p,
+  WFd d -> labels_known d k ->
+  rec_getitem_x T (other_labels d k) pack only_equiv s d k = (d', GOk sid p) ->
+  reproduces T d' sid k = true /\ r_mem k s = true /\
+  (exists r, is_cand_all T d pack r /\ r_sid r = sid /\ r_parent r = p /\
+             (only_equiv = true -> r_two_way T r = true)) /\
+  lbl d' p = Some (fst k).
+Proof. intros T pack oe s d k d' sid p W Hk H. exact (recompute_all_reproduces T pack oe s d k d' sid p W Hk H). Qed.
+
+(* 3b_x. it DOES hand a strategy back for a stored key whenever some strategy of the pack (or the empty strategy),
+   applied to ANY labelled class, produces a rule that is filed under the key (two-way for the equivalence store) *)
+Theorem C14_recompute_succeeds_x : forall (T : table) pack only_equiv s d k r,
+  WFd d -> labels_known d k -> r_mem k s = true ->
+  is_cand_all T d pack r -> key_of_rule T d r = Some k -> (only_equiv = true -> r_two_way T r = true) ->
+  exists d' sid p, rec_getitem_x T (other_labels d k) pack only_equiv s d k = (d', GOk sid p).
+Proof. intros T pack oe s d k r W Hk Hm Hc Hkr Htw. exact (recompute_all_succeeds T pack oe s d k r W Hk Hm Hc Hkr Htw). Qed.
+
+(* 3c_x. exactly when it fails: KeyError iff the key is not stored (first conjunct: for ANY key, also one with
+   labels the class database has never seen, and then nothing is touched); RuntimeError ("could not recompute") only
+   if NO strategy of the pack (nor the empty strategy) produces, on ANY labelled class, a rule filed under the key;
+   never any other exception *)
+Theorem C14_recompute_outcomes_x : forall (T : table) pack only_equiv s d k,
+  (r_mem k s = false -> rec_getitem_x T (other_labels d k) pack only_equiv s d k = (d, GKeyError)) /\
+  (r_mem k s = true -> snd (rec_getitem_x T (other_labels d k) pack only_equiv s d k) <> GKeyError) /\
+  (WFd d -> labels_known d k -> forall d' g,
+   rec_getitem_x T (other_labels d k) pack only_equiv s d k = (d', g) ->
+   match g with
+   | GOk _ _ => r_mem k s = true
+   | GKeyError => r_mem k s = false
+   | GFail => r_mem k s = true /\
+              forall r, is_cand_all T d pack r ->
+                        ~ (key_of_rule T d r = Some k /\ (only_equiv = true -> r_two_way T r = true))
+   | GErr _ => False
+   end).
+Proof.
+  intros T pack oe s d k. split; [|split].
+  - exact (proj1 (recompute_all_keyerror T pack oe s d k)).
+  - exact (proj2 (recompute_all_keyerror T pack oe s d k)).
+  - intros W Hk d' g H. exact (recompute_all_outcomes T pack oe s d k d' g W Hk H).
+Qed.
+
+(* side effects of a lookup (now on ANY labelled class: more is_empty cache fills, new labels for foreign parents):
+   the class database only grows, and every class it knew keeps its label and its is_empty answer *)
+Theorem C14_lookup_side_effects_x : forall (T : table) pack only_equiv s d k d' g,
+  WFd d -> labels_known d k ->
+  rec_getitem_x T (other_labels d k) pack only_equiv s d k = (d', g) ->
+  WFd d' /\ extends d d' /\ (forall c l, lbl d c = Some l -> lbl d' c = Some l /\ empv T d' c = empv T d c).
+Proof. intros T pack oe s d k d' g W Hk H. exact (recompute_all_side_effects T pack oe s d k d' g W Hk H). Qed.
+
+(* the fix is conservative: whatever the lookup before 59cdf67 handed back (or whichever class-database exception
+   ended it), the lookup with further labels replayed afterwards gives as well and leaves the same class database;
+   only its RuntimeError can turn into something else *)
+Theorem C14_fix_keeps_old_answers : forall (T : table) extra pack only_equiv s d k d' g,
+  rec_getitem T pack only_equiv s d k = (d', g) -> g <> GFail ->
+  rec_getitem_x T extra pack only_equiv s d k = (d', g).
+Proof. intros; eapply rec_getitem_prefix; eauto. Qed.
+
+(* 3e_x. RuleDBForgetStrategy.add under add_pre stores the key, and a lookup right after it - or in ANY later state
+   that kept labels and is_empty answers, from any store still holding the key - hands back a strategy that
+   reproduces it, provided a strategy q of the pack (or the empty strategy) produces the rule on SOME class c0 that
+   carried a label when the rule was added.  NO restriction to the rule's own parent class: a rule a factory
+   produced for another class is covered (the point of fix 59cdf67). *)
+Theorem C14_stored_rule_is_handed_back_x : forall (T : table) b start ends r cs pack q c0 l0,
+  add_pre T (b_cdb rstore_t b) start ends r cs ->
+  In q (-1 :: pack) -> lbl (b_cdb rstore_t b) c0 = Some l0 -> In r (cands T q c0) ->
+  let b1 := rec_add T b start ends r in
+  let k := stored_key T (b_cdb rstore_t b) start ends r cs in
+  let oe := in_eqv (snd k) (r_two_way T r) in
+  let s := if oe then b_e rstore_t b1 else b_r rstore_t b1 in
+  b_stat rstore_t b1 = 0 /\ r_mem k s = true /\
+  forall d2 s2, pres T (b_cdb rstore_t b1) d2 -> r_mem k s2 = true ->
+    exists d3 sid p, rec_getitem_x T (other_labels d2 k) pack oe s2 d2 k = (d3, GOk sid p) /\
+                     reproduces T d3 sid k = true.
+Proof. intros T b start ends r cs pack q c0 l0 H1 H2 H3 H4. exact (rec_add_spec_all T b start ends r cs pack q c0 l0 H1 H2 H3 H4). Qed.
+
+(* COMPOSITION C04 -> C14 FOR THE CODE AS IT IS (RuleDB/SearchHist.v search_gives_add_hist_prov = C04_search_gives_add_hist
+   plus the PROVENANCE of every step, carried by the invariant of the searcher model: Searcher/ProofsCore.v prov,
+   Searcher/Proofs.v used).  For every run of the searcher model on a pruning database (any table honouring the
+   contracts, start class, packets of pack strategies, is_verified answers, fuel - also a run that died), for EVERY
+   ruledb.add(start, ends, rule (sid, parent)) event of its trace - also one made in the middle of the last packet,
+   also a factory rule with a FOREIGN parent - : the call was made under add_pre in the class database d of that
+   moment, and in the state the run is in NOW (class database cdb s) RuleDBForgetStrategy, replaying its pack `fpack`,
+   hands back for the key k under which that call filed the rule a strategy that reproduces k - from ANY store s2
+   still holding k (the key may have been deleted as a superseded one-way key).  No own-parent hypothesis, no
+   hypothesis on where the rule came from: only that `fpack` (StrategyPack.__iter__) contains the strategies the
+   searcher applies itself - those the queue hands out (pack), the verification strategies, the symmetries.
+   Not discharged: sym_unary, twoway_faithful (decidable: Searcher/Deciders.v, see the _decided form). *)
+Theorem C14_search_stored_rules_handed_back_x : forall (T : table) (pack fpack : list Z),
+  sym_unary T -> (forall sid0 c0 r, In r (rules_from_strategy T sid0 c0) -> twoway_faithful T r) ->
+  pe_contract T pack -> sym_contract T ->
+  incl pack fpack -> incl (t_ver T) fpack -> incl (t_sym T) fpack ->
+  forall F dl ev ans start ps, packets_in pack ps ->
+  let s := run_search T 0 F dl ev ans start ps in
+  forall start_label ends sid parent, In (EvAdd start_label ends sid parent) (trace s) ->
+  exists d r cs, r_sid r = sid /\ r_parent r = parent /\ add_pre T d start_label ends r cs /\
+    let k := stored_key T d start_label ends r cs in
+    let oe := in_eqv (snd k) (r_two_way T r) in
+    forall s2, r_mem k s2 = true ->
+    exists d3 sid' p, rec_getitem_x T (other_labels (cdb s) k) fpack oe s2 (cdb s) k = (d3, GOk sid' p) /\
+                      reproduces T d3 sid' k = true.
+Proof.
+  intros T pack fpack Hu Hf Hp Hs I1 I2 I3 F dl ev ans start ps Hps s sl ends sid parent Hin.
+  destruct (search_gives_add_hist_prov T 0 pack Hu Hf Hp Hs F dl ev ans start ps Hps eq_refl)
+    as (a & l & A & B & _ & _ & D & _ & _ & Hpv).
+  assert (In (EvAdd sl ends sid parent) (adds_of (trace s))) as Hin' by (apply adds_of_In; split; [exact Hin|eauto]).
+  fold s in D. rewrite D in Hin'. apply in_map_iff in Hin' as (x & Hx & Hxl).
+  pose proof (add_hist_l_steps T l a A) as Hall. rewrite Forall_forall in Hall.
+  destruct (Hall x Hxl) as (P1 & P2 & P3). rewrite Forall_forall in Hpv.
+  destruct (Hpv x Hxl) as (q & c0 & l0 & Hq & Hl0 & Hc). unfold add_ev in Hx. injection Hx as <- <- <- <-.
+  exists (h_d x), (h_r x), (h_cs x). split; [reflexivity|]. split; [reflexivity|]. split; [exact P1|].
+  intros k oe s2 Hm.
+  assert (In q (-1 :: fpack)) as Hq'.
+  { destruct Hq as [->|[Hq|[Hq|Hq]]]; [left; reflexivity|right; auto..]. }
+  destruct (rec_add_spec_all T (rec_init (h_d x)) (h_start x) (h_ends x) (h_r x) (h_cs x) fpack q c0 l0 P1 Hq' Hl0 Hc)
+    as (_ & _ & Hgo).
+  apply (Hgo (cdb s) s2); [|exact Hm].
+  pose proof (run_sim T [HAdd (h_start x) (h_ends x) (h_r x)] _ _ (simdb_init (h_d x))) as (Hc' & _).
+  cbn [dict_run rec_run gen_run fold_left gen_step] in Hc'. fold (dict_add T) in Hc'. fold (rec_add T) in Hc'.
+  rewrite <- Hc'. fold s in B. rewrite <- B. exact P3.
+Qed.
+
+(* ... in particular for the keys the run's own stores hold NOW (the searcher model keeps the key lists of the
+   default database; by C14_same_keys_same_answers the memory-saving database holds the same keys): every key of
+   rstore s / estore s that an add event filed is looked up successfully in a store s2 holding exactly those keys *)
+Theorem C14_search_own_stores_handed_back_x : forall (T : table) (pack fpack : list Z),
+  sym_unary T -> (forall sid0 c0 r, In r (rules_from_strategy T sid0 c0) -> twoway_faithful T r) ->
+  pe_contract T pack -> sym_contract T ->
+  incl pack fpack -> incl (t_ver T) fpack -> incl (t_sym T) fpack ->
+  forall F dl ev ans start ps, packets_in pack ps ->
+  let s := run_search T 0 F dl ev ans start ps in
+  forall start_label ends sid parent, In (EvAdd start_label ends sid parent) (trace s) ->
+  exists d r cs, r_sid r = sid /\ r_parent r = parent /\ add_pre T d start_label ends r cs /\
+    let k := stored_key T d start_label ends r cs in
+    let oe := in_eqv (snd k) (r_two_way T r) in
+    In k (if oe then estore s else rstore s) ->
+    exists d3 sid' p,
+      rec_getitem_x T (other_labels (cdb s) k) fpack oe (map flatten (if oe then estore s else rstore s)) (cdb s) k
+        = (d3, GOk sid' p) /\ reproduces T d3 sid' k = true.
+Proof.
+  intros T pack fpack Hu Hf Hp Hs I1 I2 I3 F dl ev ans start ps Hps s sl ends sid parent Hin.
+  destruct (C14_search_stored_rules_handed_back_x T pack fpack Hu Hf Hp Hs I1 I2 I3 F dl ev ans start ps Hps sl ends sid parent Hin)
+    as (d & r & cs & A & B & C & D).
+  exists d, r, cs. split; [exact A|]. split; [exact B|]. split; [exact C|].
+  intros k oe Hk. apply D. apply r_mem_flat. apply in_map. exact Hk.
+Qed.
+
+(* THE SAME with every hypothesis replaced by TWO booleans the extracted run_c14 evaluates on the table of every
+   table-universe search it is compared on (and on the tabulation of every word search), with the packets the real
+   queue handed out and the pack order the memory-saving database replays: search_hyps_b (Searcher/Deciders.v, first
+   bit of the element run_c14 appends) and fpack_coversb (RuleDB/Model.v, the element after it) *)
+Theorem C14_search_stored_rules_handed_back_x_decided : forall (T : table) (pack fpack : list Z),
+  forall F dl ev ans start ps, Searcher.Deciders.search_hyps_b T pack ps = true -> fpack_coversb T pack fpack = true ->
+  let s := run_search T 0 F dl ev ans start ps in
+  forall start_label ends sid parent, In (EvAdd start_label ends sid parent) (trace s) ->
+  exists d r cs, r_sid r = sid /\ r_parent r = parent /\ add_pre T d start_label ends r cs /\
+    let k := stored_key T d start_label ends r cs in
+    let oe := in_eqv (snd k) (r_two_way T r) in
+    forall s2, r_mem k s2 = true ->
+    exists d3 sid' p, rec_getitem_x T (other_labels (cdb s) k) fpack oe s2 (cdb s) k = (d3, GOk sid' p) /\
+                      reproduces T d3 sid' k = true.
+Proof.
+  intros T pack fpack F dl ev ans start ps H Hc.
+  destruct (Searcher.Deciders.search_hyps_sound T pack ps H) as (A & B & C & D & E).
+  destruct (proj1 (fpack_coversb_spec T pack fpack) Hc) as (I1 & I2 & I3).
+  exact (C14_search_stored_rules_handed_back_x T pack fpack A B C D I1 I2 I3 F dl ev ans start ps E).
+Qed.
+
 (* The searcher model of C04 uses the DictStore database: one ruledb.add of Searcher/Model.v (base_add, key
    lists rstore / estore) and dict_add do the same to the class database and to the two key sets; when the class
    database raises, both leave the stores alone.  This is the ONE-STEP lemma; it is iterated over the whole run of
@@ -324,12 +600,13 @@ Theorem C14_searcher_model_uses_dict_store : forall (T : table) s a start ends r
     rstore s' = rstore s /\ estore s' = estore s.
 Proof. intros; eapply base_add_is_dict_add; eauto. Qed.
 
-(* The unconditional statement "every stored rule of a non-empty class can be looked up in the
-   memory-saving database" is FALSE of the faithful model: a factory applied to class 0 yields the
+(* [HISTORIC: witness of the code BEFORE fix 59cdf67; its last conjunct shows what the code does now.]
+   The unconditional statement "every stored rule of a non-empty class can be looked up in the
+   memory-saving database" WAS FALSE of the faithful model of the code before 59cdf67: a factory applied to class 0 yields the
    ready rule  S(1) -> (2,)  (a rule with a foreign parent; the searcher records it under the label
    of class 1: C04).  The dict hands strategy 0 back and it reproduces the key; RecomputingDict
-   replays the pack on classes 1 and 2 only and raises RuntimeError.  Replayed on the real code:
-   findings/forget_foreign_parent.py (open known finding). *)
+   replayed the pack on classes 1 and 2 only and raised RuntimeError.  Replayed on the real code of that time:
+   findings/forget_foreign_parent.py (known finding, FIXED by 59cdf67). *)
 Definition fp_table : table :=
   mkT [0; 0; 0]
       [ mkS 0 false true false true [(1, mkE [2] true true [0])] [];           (* 0: plain strategy, hidden *)
@@ -715,6 +992,226 @@ Proof.
   vm_compute; repeat (first [left; reflexivity | right]).
 Qed.
 
+(* ------------------------------------------------------------------------
+   THE CODE AS IT IS (section 3x) applied: the foreign-parent table fp_table (a factory applied to class 0 yields
+   the ready rule S0(1) -> (2,); the memory-saving database replays pack [1] = the factory only; the key (1, (2,))
+   does not contain label 0) and the search on se_table. *)
+Lemma fp_other : other_labels fp_cdb (1, [2]) = [0]. Proof. vm_compute; reflexivity. Qed.
+
+(* covers C14_all_labels_replayed *)
+Example C14_all_labels_replayed_nonvacuous : In 0 (key_labels (1, [2]) (other_labels fp_cdb (1, [2]))) /\
+  ~ In 3 (key_labels (1, [2]) (other_labels fp_cdb (1, [2]))).
+Proof.
+  split.
+  - apply (proj2 (C14_all_labels_replayed fp_cdb (1, [2]) 0 fp_known_12)). unfold nlabels, zlen; simpl; lia.
+  - intros H. apply (proj1 (C14_all_labels_replayed fp_cdb (1, [2]) 3 fp_known_12)) in H. unfold nlabels, zlen in H; simpl in H; lia.
+Qed.
+
+(* covers C14_recompute_reproduces_x: the foreign-parent key IS handed back by the code as it is: strategy 0, found
+   by the factory 1 on class 0 (label 0 is not in the key) *)
+Example C14_recompute_reproduces_x_nonvacuous :
+  let d' := fst (rec_getitem_x fp_table (other_labels fp_cdb (1, [2])) [1] true (b_e rstore_t fpB) fp_cdb (1, [2])) in
+  reproduces fp_table d' 0 (1, [2]) = true /\ r_mem (1, [2]) (b_e rstore_t fpB) = true /\
+  (exists r, is_cand_all fp_table fp_cdb [1] r /\ r_sid r = 0 /\ r_parent r = 1 /\
+             (true = true -> r_two_way fp_table r = true)) /\
+  lbl d' 1 = Some (fst (1, [2])).
+Proof.
+  apply (C14_recompute_reproduces_x fp_table [1] true (b_e rstore_t fpB) fp_cdb (1, [2]) _ 0 1 WF_fp_cdb fp_known_12).
+  vm_compute; reflexivity.
+Qed.
+
+(* covers C14_recompute_succeeds_x: the candidate is the factory's ready rule, produced on class 0 *)
+Example C14_recompute_succeeds_x_nonvacuous :
+  exists d' sid p, rec_getitem_x fp_table (other_labels fp_cdb (1, [2])) [1] true (b_e rstore_t fpB) fp_cdb (1, [2])
+                   = (d', GOk sid p).
+Proof.
+  apply (C14_recompute_succeeds_x fp_table [1] true (b_e rstore_t fpB) fp_cdb (1, [2]) (mkR 0 1 RPlain)
+           WF_fp_cdb fp_known_12).
+  - vm_compute; reflexivity.
+  - exists 0, 0, 1. split; [reflexivity|]. split; [right; left; reflexivity|]. vm_compute. left; reflexivity.
+  - vm_compute; reflexivity.
+  - intros _. vm_compute; reflexivity.
+Qed.
+
+(* covers C14_recompute_outcomes_x, every outcome: KeyError for a key that is not stored - also one with labels the
+   class database never saw -; not KeyError for a stored one; GOk for the foreign-parent key; RuntimeError when the
+   memory-saving database is given the EMPTY pack (then no strategy produces the rule on any labelled class) *)
+Lemma fp_known_97 : r_mem (9, [7]) (b_e rstore_t fpB) = false. Proof. vm_compute; reflexivity. Qed.
+Example C14_recompute_outcomes_x_nonvacuous :
+  rec_getitem_x fp_table (other_labels fp_cdb (9, [7])) [1] true (b_e rstore_t fpB) fp_cdb (9, [7]) = (fp_cdb, GKeyError) /\
+  snd (rec_getitem_x fp_table (other_labels fp_cdb (1, [2])) [1] true (b_e rstore_t fpB) fp_cdb (1, [2])) <> GKeyError /\
+  r_mem (1, [2]) (b_e rstore_t fpB) = true /\
+  (r_mem (1, [2]) (b_e rstore_t fpB) = true /\
+   forall r, is_cand_all fp_table fp_cdb [] r ->
+             ~ (key_of_rule fp_table fp_cdb r = Some (1, [2]) /\ (true = true -> r_two_way fp_table r = true))).
+Proof.
+  split; [|split; [|split]].
+  - apply (proj1 (C14_recompute_outcomes_x fp_table [1] true (b_e rstore_t fpB) fp_cdb (9, [7]))). exact fp_known_97.
+  - apply (proj1 (proj2 (C14_recompute_outcomes_x fp_table [1] true (b_e rstore_t fpB) fp_cdb (1, [2])))).
+    vm_compute; reflexivity.
+  - apply (proj2 (proj2 (C14_recompute_outcomes_x fp_table [1] true (b_e rstore_t fpB) fp_cdb (1, [2]))) WF_fp_cdb fp_known_12
+             fp_cdb (GOk 0 1)). vm_compute; reflexivity.
+  - apply (proj2 (proj2 (C14_recompute_outcomes_x fp_table [] true (b_e rstore_t fpB) fp_cdb (1, [2]))) WF_fp_cdb fp_known_12
+             fp_cdb GFail). vm_compute; reflexivity.
+Qed.
+
+(* covers C14_lookup_side_effects_x: a lookup of the code as it is that changes the class database *)
+Example C14_lookup_side_effects_x_nonvacuous :
+  let d' := fst (rec_getitem_x nv_table (other_labels nv_cdb (1, [3; 3])) nv_pack false [[1; 3; 3]] nv_cdb (1, [3; 3])) in
+  d' <> nv_cdb /\
+  WFd d' /\ extends nv_cdb d' /\
+  (forall c l, lbl nv_cdb c = Some l -> lbl d' c = Some l /\ empv nv_table d' c = empv nv_table nv_cdb c).
+Proof.
+  intros d'. split; [vm_compute; discriminate|].
+  apply (C14_lookup_side_effects_x nv_table nv_pack false [[1; 3; 3]] nv_cdb (1, [3; 3]) d' (GOk 1 1)
+           WF_nv_cdb nv_known_133').
+  vm_compute; reflexivity.
+Qed.
+
+(* covers C14_fix_keeps_old_answers: what the old lookup handed back for (1, (3, 3)) the present one hands back *)
+Example C14_fix_keeps_old_answers_nonvacuous :
+  snd (rec_getitem_x nv_table (other_labels nvd (1, [3; 3])) nv_pack false (b_r rstore_t nvB) nvd (1, [3; 3])) = GOk 1 1.
+Proof.
+  rewrite (C14_fix_keeps_old_answers nv_table (other_labels nvd (1, [3; 3])) nv_pack false (b_r rstore_t nvB) nvd (1, [3; 3])
+             nvd (GOk 1 1)); [reflexivity|vm_compute; reflexivity|discriminate].
+Qed.
+
+(* covers C14_stored_rule_is_handed_back_x on the FOREIGN-PARENT table: RuleDBForgetStrategy.add of the factory's
+   rule S0(1) -> (2,), produced on class 0 (label 0, not a label of the key), then the lookup of the code as it is *)
+Example C14_stored_rule_is_handed_back_x_nonvacuous :
+  exists d3 sid p,
+    rec_getitem_x fp_table (other_labels fp_cdb (1, [2])) [1] true (b_e rstore_t fpB) fp_cdb (1, [2]) = (d3, GOk sid p) /\
+    reproduces fp_table d3 sid (1, [2]) = true.
+Proof.
+  destruct (C14_stored_rule_is_handed_back_x fp_table (rec_init fp_cdb) 1 [2] (mkR 0 1 RPlain) [2] [1] 1 0 0 fp_add_pre)
+    as (_ & _ & H).
+  - right; left; reflexivity.
+  - reflexivity.
+  - vm_compute. left; reflexivity.
+  - apply (H fp_cdb (b_e rstore_t fpB)).
+    + apply pres_refl. exact WF_fp_cdb.
+    + vm_compute; reflexivity.
+Qed.
+Example C14_foreign_parent_before_and_after_the_fix :
+  snd (rec_getitem fp_table [1] true (b_e rstore_t fpB) fp_cdb (1, [2])) = GFail /\
+  snd (rec_getitem_x fp_table (other_labels fp_cdb (1, [2])) [1] true (b_e rstore_t fpB) fp_cdb (1, [2])) = GOk 0 1.
+Proof. split; vm_compute; reflexivity. Qed.
+
+(* covers C14_search_stored_rules_handed_back_x (and _own_stores_, _decided) on a FOREIGN-PARENT rule a search stored:
+   in the second packet the factory 2, applied to class 0, yields the ready rule S3(1) <-> (3,) of the hidden strategy
+   3 for class 1; the searcher records it as ruledb.add(2, (4,), rule (3, 1)).  The memory-saving database replays
+   se_fpack = the strategies the searcher applies (verification 0, pack 1 2, symmetry 4) - NOT the hidden strategy 3 -
+   and hands the rule back in the state after both packets, from the store the run itself holds *)
+Definition se_fpack : list Z := [0; 1; 2; 4].
+Definition se_run := run_search se_table 0 20 false true se_ans 0 ([mkP 0 [1] false] ++ [mkP 0 [2] false]).
+Example se_run_adds : adds_of (trace se_run) =
+  [EvAdd 2 [4] 3 1; EvAdd 4 [] 0 3; EvAdd 0 [2; 3] 1 0; EvAdd 0 [2; 3] 1 0; EvAdd 0 [1] 4 0] /\
+  estore se_run = [(0, [1]); (2, [4])].
+Proof. split; vm_compute; reflexivity. Qed.
+Lemma se_covers : fpack_coversb se_table se_pack se_fpack = true. Proof. vm_compute; reflexivity. Qed.
+Example C14_search_stored_rules_handed_back_x_nonvacuous :
+  exists d r cs, r_sid r = 3 /\ r_parent r = 1 /\ add_pre se_table d 2 [4] r cs /\
+    let k := stored_key se_table d 2 [4] r cs in
+    let oe := in_eqv (snd k) (r_two_way se_table r) in
+    forall s2, r_mem k s2 = true ->
+    exists d3 sid' p, rec_getitem_x se_table (other_labels (cdb se_run) k) se_fpack oe s2 (cdb se_run) k = (d3, GOk sid' p) /\
+                      reproduces se_table d3 sid' k = true.
+Proof.
+  destruct (proj1 (fpack_coversb_spec se_table se_pack se_fpack) se_covers) as (I1 & I2 & I3).
+  apply (C14_search_stored_rules_handed_back_x se_table se_pack se_fpack se_sym_unary se_faithful se_pe_contract se_sym_contract
+           I1 I2 I3 20%nat false true se_ans 0 _ se_packets 2 [4] 3 1).
+  vm_compute; repeat (first [left; reflexivity | right]).
+Qed.
+Example C14_search_stored_rules_handed_back_x_decided_nonvacuous :
+  Searcher.Deciders.search_hyps_b se_table se_pack ([mkP 0 [1] false] ++ [mkP 0 [2] false]) = true /\
+  fpack_coversb se_table se_pack se_fpack = true.
+Proof. split; vm_compute; reflexivity. Qed.
+(* ... the value: the key is (2, (4,)), held by the run's own equivalence store; the code as it is hands strategy 3
+   back, the code before the fix raised RuntimeError *)
+Example C14_search_stored_rules_handed_back_x_value :
+  snd (rec_getitem_x se_table (other_labels (cdb se_run) (2, [4])) se_fpack true (map flatten (estore se_run)) (cdb se_run) (2, [4]))
+    = GOk 3 1 /\
+  snd (rec_getitem se_table se_fpack true (map flatten (estore se_run)) (cdb se_run) (2, [4])) = GFail.
+Proof. split; vm_compute; reflexivity. Qed.
+Example C14_search_own_stores_handed_back_x_nonvacuous :
+  exists d r cs, r_sid r = 3 /\ r_parent r = 1 /\ add_pre se_table d 2 [4] r cs /\
+    let k := stored_key se_table d 2 [4] r cs in
+    let oe := in_eqv (snd k) (r_two_way se_table r) in
+    In k (if oe then estore se_run else rstore se_run) ->
+    exists d3 sid' p,
+      rec_getitem_x se_table (other_labels (cdb se_run) k) se_fpack oe
+        (map flatten (if oe then estore se_run else rstore se_run)) (cdb se_run) k = (d3, GOk sid' p) /\
+      reproduces se_table d3 sid' k = true.
+Proof.
+  destruct (proj1 (fpack_coversb_spec se_table se_pack se_fpack) se_covers) as (I1 & I2 & I3).
+  apply (C14_search_own_stores_handed_back_x se_table se_pack se_fpack se_sym_unary se_faithful se_pe_contract se_sym_contract
+           I1 I2 I3 20%nat false true se_ans 0 _ se_packets 2 [4] 3 1).
+  vm_compute; repeat (first [left; reflexivity | right]).
+Qed.
+
+(* covers C14_same_has_specification_real_classes: the history nv_hist; the equivalence databases receive the calls of
+   add and then connect_cycles(); the representative function of the common state maps label 1 to 0 (the two-way
+   rule 1 <-> 0), label 3 is verified, has_specification is True *)
+Definition nv_mk_ops (calls : list eqcall) : list Equiv.Model.op := RuleDB.Run.eq_ops calls ++ [Equiv.Model.Connect].
+Example C14_same_has_specification_real_classes_nonvacuous :
+  exists s rs,
+    Equiv.Model.exec Equiv.Model.isort Equiv.Model.init (nv_mk_ops (b_eq dstore nvA)) = Some (s, rs) /\
+    Equiv.Model.exec Equiv.Model.isort Equiv.Model.init (nv_mk_ops (b_eq rstore_t nvB)) = Some (s, rs) /\
+    db_has_spec (Equiv.Neutral.repf s) [(3, []); (1, [3; 3]); (3, [])] [(1, [0])] 0 false =
+    db_has_spec (Equiv.Neutral.repf s) (d_keys (b_r dstore nvA)) (d_keys (b_e dstore nvA)) 0 false.
+Proof.
+  destruct (C14_same_has_specification_real_classes Equiv.Model.isort Equiv.Hist.isort_In Equiv.Total.isort_len
+              nv_table nv_cdb nv_hist nv_mk_ops) as (s & rs & E1 & E2 & _ & _ & H & _).
+  exists s, rs. split; [exact E1|]. split; [exact E2|]. apply H; intros k; vm_compute; tauto.
+Qed.
+Example C14_same_has_specification_real_classes_value :
+  match Equiv.Model.exec Equiv.Model.isort Equiv.Model.init (nv_mk_ops (b_eq dstore nvA)) with
+  | Some (s, _) =>
+      map (Equiv.Neutral.repf s) [0; 1; 2; 3] = [1; 1; 2; 3] /\
+      db_has_spec (Equiv.Neutral.repf s) (d_keys (b_r dstore nvA)) (d_keys (b_e dstore nvA)) 0 false = Some true /\
+      RuleDB.Run.enc_verified (Some s) 4 = Base.Sx.of_Zs [0; 0; 0; 1]
+  | None => False
+  end.
+Proof. vm_compute. repeat split; reflexivity. Qed.
+
+(* covers C14_has_specification_leaves_same_is_verified: nv_hist, connect_cycles() after the calls of add; the set
+   store iterated in another order with a duplicate; the pruned dictionaries are marked in THEIR key orders and the
+   two final states answer is_verified alike (labels 0 1 3 verified, 2 not: see _value) *)
+Example C14_has_specification_leaves_same_is_verified_nonvacuous :
+  exists s rs pa pb,
+    Equiv.Model.exec Equiv.Model.isort Equiv.Model.init (nv_mk_ops (b_eq dstore nvA)) = Some (s, rs) /\
+    Tree.Model.pruned_dict (Equiv.Neutral.repf s) (d_keys (b_r dstore nvA) ++ d_keys (b_e dstore nvA)) 0 false = Some pa /\
+    Tree.Model.pruned_dict (Equiv.Neutral.repf s) ([(3, []); (1, [3; 3]); (3, [])] ++ [(1, [0])]) 0 false = Some pb /\
+    forall sA rsA sB rsB,
+      Equiv.Model.exec Equiv.Model.isort Equiv.Model.init
+        (nv_mk_ops (b_eq dstore nvA) ++ map Equiv.Model.SetVerified (Tree.Model.keys pa)) = Some (sA, rsA) ->
+      Equiv.Model.exec Equiv.Model.isort Equiv.Model.init
+        (nv_mk_ops (b_eq rstore_t nvB) ++ map Equiv.Model.SetVerified (Tree.Model.keys pb)) = Some (sB, rsB) ->
+      forall l sA' vA sB' vB,
+        Equiv.Model.is_verified sA l = Some (sA', vA) -> Equiv.Model.is_verified sB l = Some (sB', vB) -> vA = vB.
+Proof.
+  apply (C14_has_specification_leaves_same_is_verified Equiv.Model.isort Equiv.Hist.isort_In Equiv.Total.isort_len
+           nv_table nv_cdb nv_hist nv_mk_ops 0 false [(3, []); (1, [3; 3]); (3, [])] [(1, [0])]);
+    intros k; vm_compute; tauto.
+Qed.
+Example C14_has_specification_leaves_same_is_verified_value :
+  match Equiv.Model.exec Equiv.Model.isort Equiv.Model.init (nv_mk_ops (b_eq dstore nvA)) with
+  | Some (s, _) =>
+      match Tree.Model.pruned_dict (Equiv.Neutral.repf s) (d_keys (b_r dstore nvA) ++ d_keys (b_e dstore nvA)) 0 false,
+            Tree.Model.pruned_dict (Equiv.Neutral.repf s) ([(3, []); (1, [3; 3]); (3, [])] ++ [(1, [0])]) 0 false with
+      | Some pa, Some pb =>
+          Tree.Model.keys pa = [1; 3] /\ Tree.Model.keys pb = [3; 1] /\
+          match Equiv.Model.exec Equiv.Model.isort Equiv.Model.init
+                  (nv_mk_ops (b_eq dstore nvA) ++ map Equiv.Model.SetVerified (Tree.Model.keys pb)) with
+          | Some (sB, _) => RuleDB.Run.enc_verified (Some sB) 4 = Base.Sx.of_Zs [1; 1; 0; 1]
+          | None => False
+          end
+      | _, _ => False
+      end
+  | None => False
+  end.
+Proof. vm_compute. repeat split; reflexivity. Qed.
+
 Print Assumptions C14_same_keys_same_answers.
 Print Assumptions C14_has_specification_marks_same_labels.
 Print Assumptions C14_contains.
@@ -732,3 +1229,15 @@ Print Assumptions C14_search_stored_rules_handed_back.
 Print Assumptions C14_search_stored_rules_handed_back_decided.
 Print Assumptions C14_searcher_model_uses_dict_store.
 Print Assumptions C14_every_stored_rule_handed_back_refuted.
+Print Assumptions C14_same_has_specification_real_classes.
+Print Assumptions C14_has_specification_leaves_same_is_verified.
+Print Assumptions C14_all_labels_replayed.
+Print Assumptions C14_recompute_reproduces_x.
+Print Assumptions C14_recompute_succeeds_x.
+Print Assumptions C14_recompute_outcomes_x.
+Print Assumptions C14_lookup_side_effects_x.
+Print Assumptions C14_fix_keeps_old_answers.
+Print Assumptions C14_stored_rule_is_handed_back_x.
+Print Assumptions C14_search_stored_rules_handed_back_x.
+Print Assumptions C14_search_own_stores_handed_back_x.
+Print Assumptions C14_search_stored_rules_handed_back_x_decided.
